@@ -91,6 +91,10 @@ impl Alphabet {
             .map(|&c| self.char_of_code(c).expect("model code") as char)
             .collect()
     }
+    /// like `text`, with '#' for codes outside the table (used in failure messages)
+    pub fn text_lossy(&self, codes: &[u8]) -> String {
+        codes.iter().map(|&c| self.char_of_code(c).unwrap_or(b'#') as char).collect()
+    }
     /// all bytes that are not symbol characters
     pub fn bad_bytes(&self) -> Vec<u8> {
         (0..=255u8).filter(|b| !self.is_char(*b)).collect()
